@@ -220,6 +220,8 @@ class World(WorldBase):
             "clients": rng.randint(1, 3),
             "p_echo": rng.choice([0.0, 0.15, 0.3]),
             "p_edit": rng.choice([0.0, 0.0, 0.08, 0.15]),
+            "p_env": rng.choice([0.0, 0.0, 0.1, 0.25]),
+            "p_thread": rng.choice([0.0, 0.0, 0.0, 0.15]),
             "huge": rng.random() < float(os.environ.get("VERIF_C18_HUGE", "0.01")),
             "faults": [],
         }
@@ -253,6 +255,8 @@ class World(WorldBase):
             self.defaults = [(label, obj, copy.deepcopy(obj)) for label, obj in collect_defaults()]
             self.server = ReplicaServer(replica_handler, ctx.root)
             self.printopts = repr(sorted(np.get_printoptions().items(), key=lambda kv: kv[0]))
+            self.errstate = repr(sorted(np.geterr().items()))
+            self.canary_due = 0
 
     def teardown(self):
         self.held = []
@@ -365,6 +369,20 @@ class World(WorldBase):
             op = self.gen_file_edit(rng) if rng.random() < (0.7 if sw.get("huge") else 0.3) else self.gen_edit(rng)
             if op is not None:
                 return self.stamp(op, rng)
+        if getattr(self, "canary_due", 0) > 0:
+            self.canary_due -= 1
+            for name in sorted(self.pool):
+                e = self.pool[name]
+                if e.tag.get("role") == "gr_values" and e.depth == 0 and np.any(np.asarray(e.value) == 0.0):
+                    b = name.rsplit(".", 1)[0]
+                    if b + ".rbins" in self.pool:
+                        self.ctx.probe("call_with_nan_result_scheduled_after_errstate_change")
+                        op = {"op": "call", "ad": "s2_integral",
+                              "args": {"gr": {"$": name}, "gr_bins": {"$": b + ".rbins"}, "ndim": self.pool[b].tag["ndim"]}}
+                        return self.stamp(op, rng)
+            for old in reversed(self.recent):
+                if all(n in self.pool for n in self.refs(old.get("args", {}))) and all(p in self.files for p in old.get("reads", {})):
+                    self.reissue.append(dict(old, why="errstate_change"))
         for _try in range(60):
             echo = None
             if self.recent and rng.random() < sw.get("p_echo", 0.0):
@@ -412,6 +430,14 @@ class World(WorldBase):
                     if nev > 0:
                         op["fault"] = {"kind": kind, "at": self.pick_fault_event(rng, nev)}
                         self.ctx.probe("dry_runs")
+            if "fault" not in op:
+                # what the calling client did to its process first (never replayed in the clean
+                # room: results must not depend on it)
+                if rng.random() < sw.get("p_env", 0.0):
+                    op["printopts"] = {"threshold": rng.choice([5, 50, 1000]), "linewidth": rng.choice([20, 75, 200]),
+                                       "edgeitems": rng.choice([1, 3]), "precision": rng.choice([3, 8])}
+                if rng.random() < sw.get("p_thread", 0.0):
+                    op["thread"] = True
             return op
         return self.stamp(self.ad.gen_mk_snaps(self, rng), rng)
 
@@ -646,7 +672,17 @@ class World(WorldBase):
                 ctx.probe("sweep_cancellations" if fired else "sweep_point_past_end")
             fault = None
         before = dirstate(ctx.root)
-        res, exc, (nev, dig, fired) = self.call(lambda: self.exec_call(op), fault)
+
+        def client_call():
+            if op.get("printopts"):
+                np.set_printoptions(**op["printopts"])
+                ctx.probe("client_changed_numpy_printoptions")
+            return self.exec_call(op)
+        fn = client_call
+        if op.get("thread") and not fault:
+            ctx.probe("call_from_worker_thread")
+            fn = self.in_thread(client_call)
+        res, exc, (nev, dig, fired) = self.call(fn, fault)
         self.drop_last()          # C18's clients never keep the exception of a failed call
         after = dirstate(ctx.root)
         delta = {p: d for p, d in after.items() if before.get(p) != d}
@@ -822,6 +858,14 @@ class World(WorldBase):
         if now != self.printopts:
             self.ctx.probe("numpy_printoptions_changed_by:" + tag)
             self.printopts = now
+        err = repr(sorted(np.geterr().items()))
+        if err != self.errstate:
+            # not judged by itself (the property lists arrays and results); but the scheduler now
+            # makes calls whose ordinary result holds a NaN (0 * log 0 in an empty g(r) bin, a
+            # neighbourless particle): if the leaked state turns them into errors, I2 says so
+            self.ctx.probe("numpy_errstate_changed_by:" + tag)
+            self.errstate = err
+            self.canary_due = 3
 
     def invariants(self):
         pass
